@@ -35,6 +35,7 @@ type replayFile struct {
 	Inputs   []inputVal        `json:"inputs"`
 	Known    map[string]string `json:"known"`
 	Label    string            `json:"label"`
+	Extra    map[string]string `json:"extra"`
 }
 
 // State of one native replay.
@@ -77,6 +78,7 @@ func Load(path string, tmp string) (*State, string, error) {
 	for _, in := range rf.Inputs {
 		s.vals[in.Name] = in.Value
 	}
+	loadCrashPlan(rf.Extra)
 	cur = s
 	return s, rf.Harness, nil
 }
@@ -322,6 +324,190 @@ func SegOffsets(dir string) []int64 {
 	return out
 }
 
+// Crashable runs the workload f; in the engine the process may die at any
+// file-system mutation inside f (see engine/exec/crash.go). It returns the
+// directory to recover from and whether a crash happened. Natively f runs to
+// completion unless the replay file names a crash point (instrumented build).
+func Crashable(dir string, f func()) (string, bool) {
+	return crashableNative(dir, f)
+}
+
+// Snap is a snapshot of a directory (names, sizes, bytes of all files except .lock).
+type Snap struct {
+	names []string
+	data  [][]byte
+}
+
+// Snapshot captures a directory without forcing symbolic file sizes to be concrete.
+func Snapshot(dir string) *Snap {
+	s := &Snap{}
+	for _, n := range List(dir) {
+		if n == ".lock" {
+			continue
+		}
+		b, _ := ReadFile(filepath.Join(dir, n))
+		s.names = append(s.names, n)
+		s.data = append(s.data, b)
+	}
+	return s
+}
+
+// SameSnapshot reports whether two snapshots hold the same files with the same bytes.
+func SameSnapshot(a, b *Snap) bool {
+	if len(a.names) != len(b.names) {
+		return false
+	}
+	for i := range a.names {
+		if a.names[i] != b.names[i] || !bytes.Equal(a.data[i], b.data[i]) {
+			return false
+		}
+	}
+	return true
+}
+
+// CrashTaps returns the number of crash points seen so far (engine only).
+func CrashTaps() int { return crashTaps }
+
+var crashTaps int
+
 // FSEvents returns the number of file-system mutations performed so far
 // (engine only; natively 0).
 func FSEvents() int { return 0 }
+
+// ---------------------------------------------------------------- native crash replay
+
+type crashSignal struct{}
+
+type crashPlanT struct {
+	mode  int
+	tap   int   // -1: no crash
+	torn  int64 // -1: not torn
+	cuts  map[string]int64
+	armed bool
+	count int
+	dir   string
+	// torn append in progress
+	pendingTorn bool
+	sizes       map[string]int64
+}
+
+var plan = &crashPlanT{tap: -1, torn: -1}
+
+func loadCrashPlan(extra map[string]string) {
+	plan = &crashPlanT{tap: -1, torn: -1}
+	if extra == nil {
+		return
+	}
+	fmt.Sscan(extra["crash_mode"], &plan.mode)
+	if v, ok := extra["crash_tap"]; ok {
+		fmt.Sscan(v, &plan.tap)
+	}
+	if v, ok := extra["crash_torn"]; ok {
+		fmt.Sscan(v, &plan.torn)
+	}
+	if v, ok := extra["crash_cuts"]; ok {
+		_ = json.Unmarshal([]byte(v), &plan.cuts)
+	}
+}
+
+func dirSizes(dir string) map[string]int64 {
+	m := map[string]int64{}
+	es, _ := os.ReadDir(dir)
+	for _, e := range es {
+		if fi, err := e.Info(); err == nil {
+			m[e.Name()] = fi.Size()
+		}
+	}
+	return m
+}
+
+// applyTorn keeps only the first plan.torn bytes of the append that just happened.
+func applyTorn() {
+	after := dirSizes(plan.dir)
+	for name, sz := range after {
+		if before := plan.sizes[name]; sz > before {
+			_ = os.Truncate(filepath.Join(plan.dir, name), before+plan.torn)
+			return
+		}
+	}
+}
+
+// Tap is called by instrumented builds before (post=false) and after (post=true)
+// every statement of klevdb that performs a file-system mutation.
+func Tap(post bool) {
+	p := plan
+	if !p.armed {
+		return
+	}
+	if p.pendingTorn {
+		// the torn call has returned (post tap, or the next call if there was none)
+		p.armed = false
+		applyTorn()
+		panic(crashSignal{})
+	}
+	if post {
+		return
+	}
+	idx := p.count
+	p.count++
+	crashTaps = p.count
+	if idx != p.tap {
+		return
+	}
+	if p.torn > 0 {
+		p.sizes = dirSizes(p.dir)
+		p.pendingTorn = true
+		return
+	}
+	p.armed = false
+	panic(crashSignal{})
+}
+
+var crashableNative = func(dir string, f func()) (string, bool) {
+	p := plan
+	p.dir = dir
+	p.armed = true
+	p.count = 0
+	crashed := false
+	func() {
+		defer func() {
+			p.armed = false
+			if r := recover(); r != nil {
+				if _, ok := r.(crashSignal); ok {
+					crashed = true
+					return
+				}
+				panic(r)
+			}
+		}()
+		f()
+	}()
+	if p.pendingTorn {
+		// the workload ended before another tap: finish the torn append now
+		p.pendingTorn = false
+		applyTorn()
+		crashed = true
+	}
+	if !crashed && len(p.cuts) == 0 {
+		return dir, false
+	}
+	// the crash image: a copy of the directory (open handles and the lock of the
+	// dead process stay behind), unsynced tails cut as the model says
+	img := dir + ".img"
+	_ = os.MkdirAll(img, 0700)
+	es, _ := os.ReadDir(dir)
+	for _, e := range es {
+		if e.Name() == ".lock" || e.IsDir() {
+			continue
+		}
+		b, err := os.ReadFile(filepath.Join(dir, e.Name()))
+		if err != nil {
+			continue
+		}
+		if n, ok := p.cuts[filepath.Base(e.Name())]; ok && n >= 0 && n < int64(len(b)) {
+			b = b[:n]
+		}
+		_ = os.WriteFile(filepath.Join(img, e.Name()), b, 0600)
+	}
+	return img, crashed
+}
